@@ -18,6 +18,103 @@ def mutate_f10(rng):
     return body
 
 
+def site_scenario(case):
+    """The library's own timeout blocks and joins (session.py / the transports: a request waiting for its response, a
+    batch, a send blocked behind a full buffer, a graceful close that does not complete) with the calling task cancelled
+    from outside at a chosen instant - alone, inside the caller's own timeout blocks, after an earlier inner timeout that
+    was handled, or as a member of a task group whose join is cancelled: the task ends cancelled."""
+    import asyncio
+    from harness import sessions
+    from aiorpcx import session, curio
+    loop = sessions.new_loop()
+    try:
+        class S(session.RPCSession):
+            async def handle_request(self, request):
+                await asyncio.sleep(1000)
+        proto, ft, s = sessions.attach(S, kind='client', transport=case['transport'], hwm=5 if case['site'] == 'send_blocked' else None)
+        if case['site'] == 'close_waiting':
+            def close():
+                ft.closing = True            # a graceful close that does not complete (unsent data, silent peer)
+                ft.log.append(('close',))
+            ft.close = close
+
+        async def call():
+            site = case['site']
+            if site == 'send_request':
+                return await s.send_request('m', [1])
+            if site == 'send_batch':
+                async with s.send_batch() as b:
+                    b.add_request('m', [1])
+                    b.add_request('m', [2])
+                return b.results
+            if site == 'send_blocked':
+                await s.send_notification('n', ['x' * 50])      # fills the buffer: the transport pauses writing
+                return await s.send_notification('n', [2])      # ... this one waits for room
+            if site == 'close_waiting':
+                return await s.close(force_after=case.get('force_after', 30))
+            raise ValueError(site)
+
+        async def wrapped():
+            w = case['wrap']
+            if w == 'handled_inner':
+                async with curio.ignore_after(0.01):
+                    await asyncio.sleep(1)
+                try:
+                    async with curio.timeout_after(0.01):
+                        await asyncio.sleep(1)
+                except curio.TaskTimeout:
+                    pass
+                async with curio.timeout_after(500):
+                    return await call()
+            if w == 'outer':
+                async with curio.timeout_after(500):
+                    async with curio.ignore_after(400):
+                        return await call()
+            return await call()
+        info = {}
+
+        async def main():
+            if case['as_member']:
+                async def joiner():
+                    async with curio.TaskGroup() as g:
+                        info['member'] = await g.spawn(wrapped())
+                t = loop.create_task(joiner())
+            else:
+                t = loop.create_task(wrapped())
+            await asyncio.sleep(case['cancel_at'])
+            delivered = not t.done()
+            t.cancel()
+            try:
+                await asyncio.wait_for(asyncio.shield(asyncio.gather(t, return_exceptions=True)), 200)
+                hung = False
+            except asyncio.TimeoutError:
+                hung = True
+
+            def how(x):
+                if x is None:
+                    return None
+                if not x.done():
+                    return 'still running'
+                if x.cancelled():
+                    return 'cancelled'
+                return 'normal' if x.exception() is None else type(x.exception()).__name__
+            return {'delivered': delivered, 'task': how(t), 'member': how(info.get('member')), 'hung': hung}
+        return loop.run_until_complete(main())
+    finally:
+        sessions.close_loop(loop)
+
+
+def site_oracle(case, obs):
+    if not obs['delivered']:
+        return None
+    if obs['task'] != 'cancelled':
+        return (f"the task was cancelled from outside while in the library's {case['site']} ({case['wrap']} nesting"
+                f"{', as the joining task of a group' if case['as_member'] else ''}) and ended {obs['task']} instead of cancelled")
+    if case['as_member'] and obs['member'] != 'cancelled':
+        return f"the group member in the library's {case['site']} ended {obs['member']} instead of cancelled when its group's join was cancelled"
+    return None
+
+
 class C12(Prop):
     id = 'C12'
     coq_header = tc.HEADER
@@ -116,6 +213,12 @@ class C12(Prop):
                                  + [['finish', 0, ['ret', 1]]] + [['tick']] * w + [['cancelJ']] + [['tick']] * 24}
                      for pol in ('all', 'any', 'object') for mode in ('join', 'aexit') for nm in (1, 2)
                      for w in (0, 1, 2, 3) for wrap in ([], ['ignore'])]
+        # directed: the cancellation lands in the BODY of `async with group`, members running: the exit still cancels and awaits them
+        directed += [{'policy': pol, 'mode': 'aexit_body', 'retain': False, 'init': [], 'tg': True, 'wrap': wrap,
+                      'members': [{'react': r1, 'daemon': False}, {'react': 'reraise', 'daemon': d2}],
+                      'actions': [['start']] + [['tick']] * 6 + [['cancelJ']] + [['tick']] * 30}
+                     for pol in ('all', 'any', 'object', 'none') for r1 in ('reraise', 'spawn', 'veteran')
+                     for d2 in (False, True) for wrap in ([], ['timeout'])]
         for k in range(n + len(directed)):
             if k < len(directed):
                 case = directed[k]
@@ -128,6 +231,8 @@ class C12(Prop):
             case = tg_common.gen_case(rng, {'reacts': ['spawnd', 'spawnd', 'spawn', 'reraise', 'slow']} if rng.random() < 0.5 else None)
             case['tg'] = True
             case['wrap'] = [rng.choice(['timeout', 'ignore']) for _ in range(rng.randrange(0, 3))]
+            if rng.random() < 0.12:
+                case['mode'] = 'aexit_body'
             if not any(a[0] == 'cancelJ' for a in case['actions']):
                 case['actions'].insert(rng.randrange(2, len(case['actions'])), ['cancelJ'])
             if rng.random() < 0.4:
@@ -143,6 +248,22 @@ class C12(Prop):
                     break
         ctx['notes'].append(f'group joins inside timeout blocks: {n} programs on the real TaskGroup, {hit} with the joining task '
                             'ending cancelled after an external cancel')
+        # the library's own uses of the constructs (session.py, transports)
+        ns = 0
+        for site in ('send_request', 'send_batch', 'send_blocked', 'close_waiting'):
+            for wrap in ('none', 'outer', 'handled_inner'):
+                for as_member in (False, True):
+                    for cancel_at in (0.05, 1.0, 7.5):
+                        for tr in (('rs', 'us') if ctx['tier'] != 'quick' or wrap == 'none' else ('rs',)):
+                            case = {'site_scenario': True, 'site': site, 'wrap': wrap, 'as_member': as_member, 'cancel_at': cancel_at, 'transport': tr}
+                            obs = site_scenario(case)
+                            ns += 1
+                            cl = site_oracle(case, obs)
+                            if cl and sum(1 for f in out if f.case.get('site_scenario')) < 2:
+                                out.append(Failure(case, obs, cl))
+        ctx['extra_evals'] += ns
+        ctx['notes'].append(f'external cancellation landing in the library\'s own timeout blocks (request / batch awaiting its response, '
+                            f'send blocked behind a full buffer, graceful close that does not complete): {ns} scenarios')
         return out
 
     def oracle(self, case, obs):
